@@ -1,2 +1,175 @@
--- line-protocol driver stub (Engine); replaced when the model exists
-def main : IO Unit := IO.println "stub"
+/-
+Line-protocol driver for the engine model (C01, C03, C06, C07, C08).
+  case N [unordered]      → "case"        (resets program and state)
+  node K KIND DFLT EXPR   → "ok"
+  session W…              → "Fresh Updated … |[ execs…| X]"
+  round K…                → "v1 v2 … |[ execs…| X]"
+Arguments: toggle names (f1 f2 f3) switch the model from as-is to repaired behaviour;
+`core` runs the core model (QbiceVerif.Model.EngineCore) instead, answering "skip" for cases
+outside its fragment.
+-/
+import QbiceVerif.Model.Engine
+import QbiceVerif.Model.EngineCore
+open Qbice.Engine
+
+inductive Expr where
+  | const (n : Int)
+  | read (k : Nat)
+  | add (a b : Expr)
+  | ifEq (e : Expr) (n : Int) (a b : Expr)
+  | sumAll (ks : List Nat)
+  | world (k : Nat)
+  deriving Repr, Inhabited
+
+partial def parseExpr : List String → Option (Expr × List String)
+  | "c" :: n :: r => n.toInt?.map fun n => (.const n, r)
+  | "r" :: k :: r => k.toNat?.map fun k => (.read k, r)
+  | "w" :: k :: r => k.toNat?.map fun k => (.world k, r)
+  | "+" :: r => do
+    let (a, r) ← parseExpr r
+    let (b, r) ← parseExpr r
+    pure (.add a b, r)
+  | "?" :: r => do
+    let (e, r) ← parseExpr r
+    match r with
+    | n :: r =>
+      let n ← n.toInt?
+      let (a, r) ← parseExpr r
+      let (b, r) ← parseExpr r
+      pure (.ifEq e n a b, r)
+    | [] => none
+  | "S" :: n :: r => do
+    let n ← n.toNat?
+    let ks ← (r.take n).mapM String.toNat?
+    if ks.length != n then none else pure (.sumAll ks, r.drop n)
+  | _ => none
+
+/-- compile an expression to the executor free monad (left-to-right evaluation) -/
+def Expr.toProg : Expr → (Int → Prog) → Prog
+  | .const n, k => k n
+  | .read x, k => .ask x k
+  | .world x, k => .world x k
+  | .add a b, k => a.toProg fun x => b.toProg fun y => k (x + y)
+  | .ifEq e n a b, k => e.toProg fun x => if x = n then a.toProg k else b.toProg k
+  | .sumAll ks, k => .askAll ks fun vs => k (vs.foldl (· + ·) 0)
+
+def Expr.hasUnordered : Expr → Bool
+  | .sumAll _ => true
+  | .add a b => a.hasUnordered || b.hasUnordered
+  | .ifEq e _ a b => e.hasUnordered || a.hasUnordered || b.hasUnordered
+  | _ => false
+
+def parseKind : String → Option Kind
+  | "in" => some .input | "nm" => some .normal | "fw" => some .firewall
+  | "pj" => some .projection | "ex" => some .external | _ => none
+
+partial def parseWrites : List String → Option (List Write)
+  | [] => some []
+  | "set" :: k :: v :: r => do
+    let k ← k.toNat?; let v ← v.toInt?; let rest ← parseWrites r
+    pure (.set k v :: rest)
+  | "world" :: k :: v :: r => do
+    let k ← k.toNat?; let v ← v.toInt?; let rest ← parseWrites r
+    pure (.world k v :: rest)
+  | "refresh" :: r => do pure (.refresh :: (← parseWrites r))
+  | _ => none
+
+def showErr : Err → String
+  | .outOfFuel => "error outOfFuel"
+  | .panic m => s!"error panic {m}"
+  | .deadlock m => s!"error deadlock {m}"
+  | .badOp m => s!"error badOp {m}"
+
+def showSetRes : SetRes → String
+  | .fresh => "Fresh" | .updated => "Updated" | .unchanged => "Unchanged"
+  | .refreshed => "refreshed" | .world => "world"
+
+def sortNat (l : List Nat) : List Nat := l.foldl (fun acc k =>
+  let rec ins : List Nat → List Nat
+    | [] => [k]
+    | x :: r => if k ≤ x then k :: x :: r else x :: ins r
+  ins acc) []
+
+structure DS where
+  prog : Program := []
+  exprs : List Expr := []
+  st : St := {}
+  unordered : Bool := false
+  -- core model
+  coreOk : Bool := true
+  cst : Qbice.Core.St := {}
+
+def execsStr (unordered : Bool) (log : List Nat) : String :=
+  if unordered then " X" else String.join ((sortNat log).map fun k => s!" {k}")
+
+def stepFull (t : Toggles) (d : DS) (toks : List String) : DS × String :=
+  match toks with
+  | "case" :: _ => ({ unordered := toks.contains "unordered" }, "case")
+  | "node" :: k :: kind :: dflt :: rest =>
+    match k.toNat?, parseKind kind, dflt.toInt?, parseExpr rest with
+    | some k, some kind, some dflt, some (e, []) =>
+      if k != d.prog.length then (d, "bad-op") else
+      ({ d with prog := d.prog ++ [{ kind := kind, dflt := dflt, prog := e.toProg .ret }], exprs := d.exprs ++ [e] }, "ok")
+    | _, _, _, _ => (d, "bad-op")
+  | "session" :: rest =>
+    match parseWrites rest with
+    | none => (d, "bad-op")
+    | some ws =>
+      match (session d.prog ws).run { d.st with log := [] } with
+      | .ok (rs, st) => ({ d with st := st }, " ".intercalate (rs.map showSetRes) ++ " |" ++ execsStr d.unordered st.log)
+      | .error e => (d, showErr e)
+  | "round" :: rest =>
+    match rest.mapM String.toNat? with
+    | none => (d, "bad-op")
+    | some ks =>
+      match (round t d.prog ks).run { d.st with log := [] } with
+      | .ok (vs, st) => ({ d with st := st }, " ".intercalate (vs.map toString) ++ " |" ++ execsStr d.unordered st.log)
+      | .error e => (d, showErr e)
+  | _ => (d, "bad-op")
+
+/-- the core model answers only for programs of input/normal nodes without unordered groups -/
+def stepCore (d : DS) (toks : List String) : DS × String :=
+  match toks with
+  | "case" :: _ => ({ unordered := toks.contains "unordered" }, "case")
+  | "node" :: k :: kind :: dflt :: rest =>
+    match k.toNat?, parseKind kind, dflt.toInt?, parseExpr rest with
+    | some k, some kind, some dflt, some (e, []) =>
+      if k != d.prog.length then (d, "bad-op") else
+      let inFrag := (kind == .input || kind == .normal) && !e.hasUnordered
+      ({ d with prog := d.prog ++ [{ kind := kind, dflt := dflt, prog := e.toProg .ret }], exprs := d.exprs ++ [e],
+                coreOk := d.coreOk && inFrag }, "ok")
+    | _, _, _, _ => (d, "bad-op")
+  | "session" :: rest =>
+    if !d.coreOk then (d, "skip") else
+    match parseWrites rest with
+    | none => (d, "bad-op")
+    | some ws =>
+      let sets := ws.filterMap fun | .set k v => some (k, v) | _ => none
+      if sets.length != ws.length then ({ d with coreOk := false }, "skip") else
+      let cp := Qbice.Core.ofProgram d.prog
+      match Qbice.Core.session cp sets { d.cst with log := [] } with
+      | .ok (rs, st) => ({ d with cst := st }, " ".intercalate (rs.map fun
+          | .fresh => "Fresh" | .updated => "Updated" | .unchanged => "Unchanged") ++ " |" ++ execsStr false st.log)
+      | .error e => (d, "error " ++ toString (repr e))
+  | "round" :: rest =>
+    if !d.coreOk then (d, "skip") else
+    match rest.mapM String.toNat? with
+    | none => (d, "bad-op")
+    | some ks =>
+      let cp := Qbice.Core.ofProgram d.prog
+      match Qbice.Core.round cp (Qbice.Core.fuelFor cp) ks { d.cst with log := [] } with
+      | .ok (vs, st) => ({ d with cst := st }, " ".intercalate (vs.map toString) ++ " |" ++ execsStr false st.log)
+      | .error e => (d, "error " ++ toString (repr e))
+  | _ => (d, "bad-op")
+
+partial def loop (h : IO.FS.Stream) (out : IO.FS.Stream) (core : Bool) (t : Toggles) (d : DS) : IO Unit := do
+  let line ← h.getLine
+  if line.isEmpty then return ()
+  let toks := (line.trimAscii.toString.splitOn " ").filter (· ≠ "")
+  let (d', o) := if core then stepCore d toks else stepFull t d toks
+  out.putStrLn o
+  loop h out core t d'
+
+def main (args : List String) : IO Unit := do
+  let t : Toggles := { f1 := args.contains "f1", f2 := args.contains "f2", f3 := args.contains "f3", f14 := args.contains "f14" }
+  loop (← IO.getStdin) (← IO.getStdout) (args.contains "core") t {}
